@@ -1443,3 +1443,83 @@ Lemma C15_min_nonvacuous_proof :
   results_of (select w3_cfg (run w3_cfg (GSet (SMin MLast)) w3_hist) rq true None) = [ROk 1 60000000] /\
   results_of (select w3_cfg (run w3_cfg (GSet (SMin MLast)) w3_hist) rq true (Some 1%nat)) = [ROk 0 100000000].
 Proof. vm_compute. auto. Qed.
+
+(* ---------- completeness: `no alive node` iff every type tried, in both families when allowed, is empty ---------- *)
+Lemma first_nonempty_none : forall views excl ts,
+  first_nonempty views excl ts = None <-> forall t', In t' ts -> cands excl (views t') = [].
+Proof.
+  intros views excl ts. unfold first_nonempty. induction ts as [|t ts IH]; cbn.
+  - split; [intros _ t' []|reflexivity].
+  - destruct (cands excl (views t)) eqn:E.
+    + rewrite IH. split; [intros H t' [<-|Hin]; auto|intros H t' Hin; apply H; auto].
+    + split; [discriminate|]. intros H. specialize (H t (or_introl eq_refl)). congruence.
+Qed.
+
+Lemma select_rand_nonempty : forall st sets excl ts, results_of (select_rand st sets excl ts) <> [].
+Proof.
+  intros st sets excl ts. induction ts as [|t ts IH]; cbn; [discriminate|].
+  destruct (get_rand (sets t) excl) eqn:E; [exact IH|]. cbn. discriminate.
+Qed.
+
+Lemma select_min_nonempty : forall st sets excl ts, results_of (select_min st sets excl ts) <> [].
+Proof.
+  intros st sets excl ts. induction ts as [|t ts IH]; cbn; [discriminate|].
+  destruct (get_min (sets t) excl) as [[d|] l]; [cbn; discriminate|exact IH].
+Qed.
+
+Lemma select1_nonempty : forall c g pol t excl, results_of (select1 c g pol t excl) <> [].
+Proof.
+  intros c g pol t excl. unfold select1. destruct (c_n c); [cbn; discriminate|].
+  destruct pol as [i|[|m]].
+  - destruct ((i <? 0) || (Z.of_nat (S n) <=? i)); cbn; discriminate.
+  - apply select_rand_nonempty.
+  - apply select_min_nonempty.
+Qed.
+
+Lemma select_nonempty : forall c g rq strict excl, results_of (select c g rq strict excl) <> [].
+Proof.
+  intros c g rq strict excl. unfold select.
+  destruct (select1 c g (g_policy g) (key_of rq) excl) as [ds l sel|e l] eqn:E.
+  - rewrite <- E. apply select1_nonempty.
+  - destruct e; try (rewrite <- E; apply select1_nonempty).
+    destruct (negb strict); [apply select1_nonempty|].
+    destruct (Nat.eqb (c_n c) 1); [|cbn; discriminate].
+    pose proof (select1_nonempty c g (GFixed 0) (key_of rq) excl) as H.
+    destruct (select1 c g (GFixed 0) (key_of rq) excl); cbn in *; [|discriminate].
+    destruct ds; [exfalso; apply H; reflexivity|discriminate].
+Qed.
+
+Lemma C15_select_set_ok_proof :
+  forall (c : cfg) (p0 : gpol) (h : list op) (rq : reqtype) (strict : bool) (excl : option nat) (p : spol) (r : sel_res),
+    c_n c <> O -> g_policy (run c p0 h) = GSet p ->
+    In r (results_of (select c (run c p0 h) rq strict excl)) ->
+    select_ok c (spec_run c p0 h) (key_of rq) strict excl r = true.
+Proof.
+  intros c p0 h rq strict excl [|m] r; [apply C15_select_random_ok_proof|apply C15_select_min_proof].
+Qed.
+
+Lemma C15_select_complete_proof :
+  forall (c : cfg) (p0 : gpol) (h : list op) (rq : reqtype) (strict : bool) (excl : option nat) (p : spol),
+    c_n c <> O -> g_policy (run c p0 h) = GSet p ->
+    ((exists l, In (RErr ENoAlive l) (results_of (select c (run c p0 h) rq strict excl))) <->
+     ((forall t', In t' (tried (key_of rq) strict) -> cands excl (ss_views (spec_run c p0 h) t') = []) /\
+      Nat.eqb (c_n c) 1 && strict = false)).
+Proof.
+  intros c p0 h rq strict excl p Hn Hp.
+  destruct (run_ok c p0 h) as (_ & Hpol & _).
+  assert (Hok : forall r, In r (results_of (select c (run c p0 h) rq strict excl)) ->
+                          select_ok c (spec_run c p0 h) (key_of rq) strict excl r = true)
+    by (intros r; apply (C15_select_set_ok_proof c p0 h rq strict excl p r Hn Hp)).
+  rewrite <- first_nonempty_none.
+  split.
+  - intros [l Hin]. apply Hok in Hin. unfold select_ok in Hin. rewrite <- Hpol, Hp in Hin.
+    destruct (c_n c) as [|n]; [congruence|].
+    destruct (first_nonempty _ _ _); [discriminate|]. split; [reflexivity|].
+    destruct (Nat.eqb (S n) 1 && strict); [discriminate|reflexivity].
+  - intros [Hf Hl].
+    destruct (results_of (select c (run c p0 h) rq strict excl)) as [|r rs] eqn:Er;
+      [exfalso; eapply select_nonempty; eauto|].
+    specialize (Hok r (or_introl eq_refl)). unfold select_ok in Hok. rewrite <- Hpol, Hp in Hok.
+    destruct (c_n c) as [|n]; [congruence|]. rewrite Hf, Hl in Hok.
+    destruct r as [d l|[] l]; try discriminate. exists l. left. reflexivity.
+Qed.
